@@ -22,13 +22,15 @@ import pfimport  # noqa: F401
 from pfimport import exc_enum
 
 import c13_exc
+import c13_file
 import c13_worker
 import mapgen
 import pipegen
 import terms
 
 PID = "C13"
-PROPS = ["PfModel.Props.C13", "PfModel.Props.C13Async", "PfModel.Props.C13Store", "PfModel.Props.C13Kinds", "PfModel.Props.C13Proto"]
+PROPS = ["PfModel.Props.C13", "PfModel.Props.C13Async", "PfModel.Props.C13Store", "PfModel.Props.C13Kinds", "PfModel.Props.C13Proto",
+         "PfModel.Props.C13File", "PfModel.Props.C13Snap", "PfModel.Props.C13Gens"]
 DRIVER = "C13"
 RULE = ("mapgen pipelines (1-4 functions, mapped / reducing / internal-axis / generator / plain, 1-3 generations) and pipegen DAGs "
         "(1-5 functions, tuple outputs, renames, defaults, bound); for every invocation of the failure-free run (function, call "
@@ -39,10 +41,13 @@ RULE = ("mapgen pipelines (1-4 functions, mapped / reducing / internal-axis / ge
         "TimeoutError, CancelledError, FileNotFoundError, ...) drawn 70 % of the time} x mode {sequential, thread pool(3), thread pool(1), process pool(2), default "
         "process pool, map_async} x storage {file_array, dict}; plus runs with 2-3 raising invocations (which one surfaces), a "
         "second failing run on the same pipeline object (stale snapshots), and injections that match nothing (no failure: the "
-        "model must equal PF.Map.runMap). Non-trivial = some other invocation runs besides the raising one; distinct by "
+        "model must equal PF.Map.runMap); plus the stream `snapfile` (c13_file.py): real ErrorSnapshots of failing PipeFunc calls (1-3 keyword "
+        "arguments, or built directly with positional args) whose argument values are atoms / tuples / lists / dicts / dataclass instances "
+        "(DBox, Pair) nested to depth 3, any exception kind, saved and loaded, every dataclass field compared with the file model. Non-trivial = some other invocation runs besides the raising one; distinct by "
         "(pipeline, raising invocations, exception class, mode, storage)")
-ASSUMPTIONS = ["exception pickling across processes, cloudpickle of ErrorSnapshot and executor shutdown are runtime behaviour: checked by "
-               "the harness (type/args/notes at the caller, reproduce after save/load, watchdog), not proved",
+ASSUMPTIONS = ["exception pickling across processes and executor shutdown are runtime behaviour: checked by the harness (type/args/notes at the "
+               "caller, watchdog), not proved; save_to_file/load_from_file is the token-stream model of Model/ErrorsFile.lean (C13_file_roundtrip) - that "
+               "cloudpickle IS such a stack machine on these value kinds is what the stream `snapfile` compares (every field of the loaded snapshot)",
                "the order of functions inside one generation is taken from the implementation (networkx) and given to the model",
                "the model's store after a failure describes file-based storage (cells written by the worker); in-memory storage is "
                "only persisted by a successful run, so the 'loadable' clause is checked with storage='file_array'",
@@ -266,8 +271,18 @@ def with_rename(fail):
     return out, table
 
 
+def boxed_names(funcs, fail):
+    """the own-name parameters of the failing functions that the worker hands over as `terms.DBox` instances (`terms.box_some` decides by
+    the name of the root argument): the driver evaluates `reproduce` THROUGH THE FILE MODEL with these kinds (`boxNamed`, `C13_snapshot_file`)"""
+    produced = {o for f in funcs for o in f["outputs"]}
+    names = {m["f"] for m in fail}
+    return sorted({own for f in funcs if f["name"] in names for pn, own in f["params"]
+                   if pn not in produced and isinstance(terms.box_some(pn, terms.Term("probe", ())), terms.DBox)})
+
+
 def map_request(mdesc, fail, mode, extra=()):
     a = mapgen.model_request(mdesc)
+    a["boxed"] = boxed_names(mdesc["funcs"], fail)
     a["fail"], table = with_rename(list(fail) + list(extra))
     if table:
         a["rename"] = table
@@ -277,7 +292,7 @@ def map_request(mdesc, fail, mode, extra=()):
 
 def call_request(desc, out, kw, fail):
     fail, table = with_rename(fail)
-    a = {"funcs": desc["funcs"], "kw": kw, "out": out, "fail": fail}
+    a = {"funcs": desc["funcs"], "kw": kw, "out": out, "fail": fail, "boxed": boxed_names(desc["funcs"], fail)}
     if table:
         a["rename"] = table
     return {"m": "call.fail", "a": a}
@@ -739,6 +754,21 @@ def judge_step(ctx, case, kind, step, o, M):
                 return
         if single and entry != "nested" and M.get("pipelineSnap") and canon_kw(M["pipelineSnap"]["kwargs"]) != want_snap["kwargs"]:
             raise AssertionError("driver: pipelineSnapshot differs from the raised snapshot in a single-failure run")
+        # the model's reproduce() THROUGH THE FILE (saveFile / loadFile / reproduceFile with the kinds the worker uses) is the exception raised
+        rf = M.get("reproduceFile")
+        if not isinstance(rf, dict) or exn_pair(rf) != exn_pair(M["exn"]):
+            raise AssertionError(f"driver: reproduceFile is not the raised exception (C13_snapshot_file): {rf}")
+        ctx.count("clause:snapshot-file(model)")
+        # one raising invocation, any mode and schedule: the function and the pipeline expose THE snapshot (C13_snapshot_single); with several,
+        # the snapshot of one of the raising invocations of this run (C13_pipeline_snapshot_any / C13_func_snapshot_any: the `allowed` test above)
+        if kind == "map" and "funcSnap" in M:
+            if len(targets) == 1 and targets[0][1] is not None and not step.get("fail_extra"):
+                fsn = M["funcSnap"]
+                if fsn is None or fsn["fname"] != M["snap"]["fname"] or canon_kw(fsn["kwargs"]) != want_snap["kwargs"] or exn_pair(fsn["exn"]) != exn_pair(M["exn"]):
+                    raise AssertionError(f"driver: funcSnapshot differs from the raised snapshot in a single-failure run (C13_snapshot_single): {fsn}")
+                ctx.count("clause:func-snapshot=raised(model, single)")
+            else:
+                ctx.count("clause:func-snapshot-any(model, several)")
         # ---- … also in a fresh interpreter: nothing of the failing process survives but the file
         fr = o.get("fresh")
         if fr is not None:
@@ -862,6 +892,15 @@ CORPUS_MAP_PROTO = [
                         (1, "x:json.decoder.JSONDecodeError:s", "process"), (2, "x:json.decoder.JSONDecodeError:s", "thread"),
                         (2, "x:asyncio.exceptions.IncompleteReadError:s", "process")]),
 ]
+# seeded change C13-s4-A (`_process_task_async` awaits the single future of a function WITHOUT mapspec inputs through `asyncio.wrap_future` again):
+# the DF-C13-03 failures (StopIteration hangs, TimeoutError loses its note, CancelledError changes type) for a plain / reducing function only.
+# Reached by the generator on some seeds only; recorded here: x0[i] -> y0[i], then the reduction f2(y0) (call index 3), `map_async`.
+CORPUS_MAP_PROTO.append(
+    ({"funcs": [_mf("f0", [["x0", "x0"]], ["y0"], {"inputs": [["x0", ["i"]]], "outputs": [["y0", ["i"]]]}, "x0[i] -> y0[i]"),
+                _mf("f2", [["y0", "a0"]], ["y2"])],
+      "inputs": [_inp("x0", 3)], "input_kinds": {"x0": "list"}, "internal": [], "sizes": {}},
+     [(3, "x:builtins.TimeoutError:a", "async"), (3, _STOP + "n", "async"), (3, "x:concurrent.futures._base.CancelledError:a", "async"),
+      (3, "x:builtins.TimeoutError:n", "thread")]))
 CORPUS_CALL_PROTO = [
     (CORPUS_CALL[0][0], "o1", [["r0", {"s": "kw:r0"}]], [(0, _STOP + "n", "call"), (1, _STOP + "v", "run"), (1, "x:builtins.KeyError:v", "func"),
                                                         (0, "x:builtins.AttributeError:n", "scope")]),
@@ -997,6 +1036,8 @@ def run(ctx):
         for job, obs_list in zip(jobs, results):
             for inj, obs in zip(job["injections"], obs_list):
                 judge(ctx, job["kind"], job["desc"], inj, obs)
+        # ---- stream `snapfile`: ErrorSnapshot.save_to_file / load_from_file against the file model (Props/C13File.lean)
+        c13_file.run_stream(ctx, base, ctx.n(150, 1500))
     finally:
         if const_env is None:
             os.environ.pop("VERIF_CONST", None)
@@ -1006,6 +1047,9 @@ def run(ctx):
 def replay(ctx, case):
     base = tempfile.mkdtemp(prefix="verif-c13-")
     try:
+        if case.get("kind") == "snapfile":
+            c13_file.replay(ctx, case["case"], base)
+            return
         inj = case["inj"]
         desc = case["desc"]
         steps = [inj] + ([inj["then"]] if inj.get("then") else [])
